@@ -137,7 +137,15 @@ def eval (line : String) : Option String := do
     let c : Csr := { cn := cn, cnIp := cnip, dns := dns, ips := ips, emails := em, uriStrs := uris,
                      displayNames := dn, orgs := org }
     let cc := canonicalize c
-    let f := finOutS (finalizeNames ids fps cfp c)
+    let force := (lookup kv "force") == some "1"
+    -- the authority's forceCN option on top of what Finalize hands it
+    let forced : M FinOut → String := fun r => match r with
+      | .val (.accept a cn0 l) =>
+        match forceCommonName force cn0 l with
+        | some cn1 => finOutS (.val (.accept a cn1 l))
+        | none => "ise"   -- the BadRequest of the signing option is answered 500 by Finalize
+      | r => finOutS r
+    let f := forced (finalizeNames ids fps cfp c)
     let cls := (f.splitOn ":").headD ""
     pure s!"{cls}:canon={listS (cc.dns.map xs)};{listS (cc.ips.map xs)} sans={sansOutS (sans ids cc)} fin={f}"
   | _ => none
